@@ -424,6 +424,50 @@ fn main() {
             }
         }
     }
+    // ---- a rule WITHOUT any pattern token and with several `domain=` values (it is filed once per
+    // domain) added to a LIVE blocker that already holds rules filed under some of those domains:
+    // the added exception must un-block / the added blocking rule must block for every one of its
+    // domains, as in the batch engine over the same rules
+    {
+        const DOMS: &[&str] = &["a.com", "b.com", "x.com", "foo.com", "ads.net", "example.org"];
+        for it in 0..40 * a.scale {
+            let (d1, d2, d3) = (DOMS[it % DOMS.len()], DOMS[(it / 2 + 1 + it % DOMS.len()) % DOMS.len()], DOMS[(it + 3) % DOMS.len()]);
+            if d1 == d2 { continue; }
+            let host = gen::HOSTS[it % gen::HOSTS.len()];
+            let exception = it % 2 == 0;
+            // the list: rules already filed under d1 (and sometimes d3), and the rule the addition plays against
+            let mut lines: Vec<String> = vec![format!("@@*$image,domain={}", d1), "/zz9/filler.".to_string()];
+            if it % 3 == 0 { lines.push(format!("*$font,domain={}", d3)); }
+            if exception { lines.push(format!("||{}^", host)); } else { lines.push(format!("@@||{}^$image", host)); }
+            let doms = match it % 4 { 0 => format!("{}|{}", d1, d2), 1 => format!("{}|{}", d2, d1), 2 => format!("{}|{}|{}", d2, d3, d1), _ => format!("{}|{}|{}", d1, d3, d2) };
+            let x = format!("{}*$script,domain={}", if exception { "@@" } else { "" }, doms);
+            let Some(xf) = parse_net(&x) else { continue };
+            let rules: Vec<NetworkFilter> = lines.iter().filter_map(|l| parse_net(l)).collect();
+            let mut l2 = lines.clone();
+            l2.push(x.clone());
+            for d in [d1, d2] {
+                let (url, src) = (format!("https://{}/zz1/w.js", host), format!("https://{}/page", d));
+                let Ok(req) = adblock::request::Request::new(&url, &src, "script") else { continue };
+                register_request(&req, &url, &src, "script");
+                let got = engine_verdict(&build_engine(&lines, &[], false), &req);
+                let g2 = engine_verdict(&build_engine(&l2, &[], false), &req);
+                let mut b = adblock::blocker::Blocker::new(rules.clone(), &adblock::blocker::BlockerOptions { enable_optimizations: false });
+                let res = b.add_filter(xf.clone());
+                let g3r = b.check(&req, &adblock::resources::ResourceStorage::default());
+                let g3 = V { matched: g3r.matched, important: g3r.important, exception: g3r.exception.is_some(), filter: g3r.filter.is_some() };
+                sm.oracle_evaluations += 1;
+                cs.stat("live_add_filter_tokenless_multi_domain");
+                let kind = if exception { "exception_monotone" } else { "blocking_monotone" };
+                let bad3 = if exception { g3.matched && !got.matched } else { got.matched && !g3.matched };
+                let all_rules: Vec<NetworkFilter> = l2.iter().filter_map(|l| parse_net(l)).collect();
+                let want = spec_verdict(&all_rules, &HashSet::new(), &req);
+                if bad3 || g3 != g2 || g3 != want || res.is_err() {
+                    sm.failure(None, &format!("{} through add_filter of a token-less multi-domain rule on a live blocker: before {:?}, after add_filter({}) = {:?} -> {:?}, batch engine over the same rules {:?}, rule-by-rule {:?}", kind, got, x, res, g3, g2, want),
+                        json!({"kind": kind, "live": true, "rules": lines, "added": [x], "tags": [], "url": url, "source": src, "type": "script"}));
+                }
+            }
+        }
+    }
     // known finding F20 (kept as a corpus entry; reported only while it still reproduces)
     {
         let lines: Vec<String> = vec!["||x.com/ad".into()];
